@@ -14,8 +14,11 @@
     C11_model_lyapunov  hence xᵀ(W A + Aᵀ W)x ≤ 0 for the A the model returns (every RLC network,
                         every naming / listing order, any certificates);
     C11_model_eig       hence re λ ≤ 0 for every eigenpair of that A when all C, L are positive.
-  Nothing algebraic is left open.  The flow clause (t ↦ ½ x(t)ᵀ W x(t) antitone along exp(tA)) is not
-  formalised beyond its rate form C11_energy_rate + C11_model_lyapunov.
+  NOT a theorem (listed as open, decided per instance by the sampled-energy stream of the oracle only): the FLOW clause
+  of the property — along exp(tA) the stored energy ½ x(t)ᵀ W x(t) cannot grow, simulated responses stay bounded and
+  the stored energy is non-increasing after all sources have returned to zero.  Only its rate form is proved
+  (C11_energy_rate + C11_model_lyapunov: d/dt ½xᵀWx = xᵀW A x ≤ 0 at every state); integrating it along the matrix
+  exponential is not formalised.
 -/
 import CC.Proofs.StatePassive
 import Mathlib.LinearAlgebra.Matrix.Notation
